@@ -17,6 +17,21 @@ struct GroupKey(Vec<Value>);
 type Groups<T> = BTreeMap<GroupKey, HashMap<usize, T>>;
 
 impl GroupKey {
+    /// Of two keys that compare as equal, whether this one is written the "smaller" way (1 before 1.0, -0.0 before 0.0)
+    fn is_less_name(&self, current: &GroupKey) -> bool {
+        self.0.iter().zip(current.0.iter())
+            .map(|(x, y)| x.compare_representation(y))
+            .find(|ordering| *ordering != std::cmp::Ordering::Equal) == Some(std::cmp::Ordering::Less)
+    }
+
+    /// The group may be known under its smaller name in one of the two maps only (an aggregate without a value yet has no entry)
+    fn smallest_name<T>(self, groups: &Groups<T>) -> GroupKey {
+        match groups.get_key_value(&self) {
+            Some((current, _)) if current.is_less_name(&self) => current.clone(),
+            _ => self
+        }
+    }
+
     /// Of the keys that compare as equal (1 and 1.0) the same one names the group, whatever the order of the lines
     fn take_name<T>(&self, groups: &mut Groups<T>) {
         let rename = match groups.get_key_value(self) {
@@ -94,6 +109,8 @@ impl AggregateExecutionEngine {
             GroupKey(vec![Value::Null])
         };
 
+        let group_key = group_key.smallest_name(&self.group_aggregators);
+        let group_key = group_key.smallest_name(&self.group_values);
         group_key.take_name(&mut self.group_aggregators);
         group_key.take_name(&mut self.group_values);
 
